@@ -25,6 +25,10 @@ class Concretised(TypeError):
     """A proxy reached a C boundary (float(), dtype=float, ...)."""
 
 
+PI_CONSISTENT = [False]
+PI_FR = Fr(repr(math.pi))
+
+
 def tofrac(v):
     """float -> rational, the 'meaning of the source text' reading (DESIGN §1)."""
     if isinstance(v, Fr):
@@ -40,6 +44,14 @@ def tofrac(v):
     g = f.limit_denominator(100000)
     if g == f or abs(g - f) <= abs(f) * 4e-16:
         return g
+    if PI_CONSISTENT[0] and v != 0.0:
+        # float values of q * pi^k (k = 1..4, q a simple rational; zeta2 = pi^2/6, 2 pi^2/3, ...) are read as q * P^k with ONE rational P for pi,
+        # so that constants the source writes in different ways (np.pi**2 / 6 next to zeta2) stay consistent with each other (relative change 1e-16)
+        for k in (2, 1, 4, 3):
+            q = v / math.pi ** k
+            h = Fr(q).limit_denominator(2000)
+            if h != 0 and abs(float(h) - q) <= abs(q) * 1e-15:
+                return h * PI_FR ** k
     return Fr(repr(v))
 
 
